@@ -5,25 +5,25 @@ import json, os, subprocess, sys
 suffix = sys.argv[1]
 want = sys.argv[2:]
 AVOID = {
- "C01": "OFFSET dropped without LIMIT; time-dimension truncation changes",
- "C02": "composite key concatenated without separator; mixed fan-out/non-fan-out references",
- "C03": "NULL-safe join replaced by = for time dimensions",
- "C04": "bare IS NULL filter no longer forcing INNER; whitespace inside literals",
- "C05": "graph-level metric lookup order",
- "C06": "memoising metric SQL without model context",
- "C07": "coarser granularity computed from declared base bucket",
- "C08": "granularity test admitting week->year; declared build ranges",
- "C09": "dropping a name from the week exception",
- "C10": "skipping a second relationship between a linked pair; registration interleaved with lookups",
- "C11": "omitting metric sql when equal to the name",
- "C12": "MetricFlow expr omitted when equal to measure name",
- "C13": "Cube rule requiring measures:",
- "C15": "path memo filled with a reversed path",
- "C16": "multi-pass parameter substitution; non-builtin value types",
- "C17": "ROWS frame chosen from declared rather than queried granularity",
- "C18": "merge DELETE boundary truncated to the bucket; first refresh on an empty rollup",
- "C19": "dirty flag cleared before the rebuild",
- "C20": "granular time dimensions left out of the join check",
+ "C01": "OFFSET dropped without LIMIT; time-dimension truncation changes; splicing a computed dimension's SQL unparenthesised into a pushed-down filter",
+ "C02": "composite key concatenated without separator; mixed fan-out/non-fan-out references; skipping symmetric aggregates when a one_to_many hop joins on part of the target's composite key",
+ "C03": "NULL-safe join replaced by = for time dimensions; pushing ORDER BY/LIMIT into the per-model sub-queries",
+ "C04": "bare IS NULL filter no longer forcing INNER; whitespace inside literals; rewriting a key-only filter onto the foreign key (join elimination)",
+ "C05": "graph-level metric lookup order; select aliases leaking between CTEs / sub-selects",
+ "C06": "memoising metric SQL without model context; dropping parentheses around substituted components with * or / at the top",
+ "C07": "coarser granularity computed from declared base bucket; suppressing default time dimensions when another model's time dimension is requested",
+ "C08": "granularity test admitting week->year; declared build ranges; routing filtered SUM measures stored as SUM(CASE ... ELSE 0)",
+ "C09": "dropping a name from the week exception; GRANULARITY_HIERARCHY as a defaultdict polluted by the recommender",
+ "C10": "skipping a second relationship between a linked pair; registration interleaved with lookups; Dijkstra with a swapped cost tuple",
+ "C11": "omitting metric sql when equal to the name; not exporting a relationship primary_key equal to 'id'",
+ "C12": "MetricFlow expr omitted when equal to measure name; Cube exporter marking a differently named dimension as primary key",
+ "C13": "Cube rule requiring measures:; moving the BSL '_.' rule ahead of other rules",
+ "C15": "path memo filled with a reversed path; in-place extension of a composite primary-key list during compile",
+ "C16": "multi-pass parameter substitution; non-builtin value types; folding newlines in filters after interpolation",
+ "C17": "ROWS frame chosen from declared rather than queried granularity; lag offsets derived by floor division (qoq at week grain)",
+ "C18": "merge DELETE boundary truncated to the bucket; first refresh on an empty rollup; memoising the watermark on the PreAggregation object",
+ "C19": "dirty flag cleared before the rebuild; memoised predecessor tree published before being filled",
+ "C20": "granular time dimensions left out of the join check; supported_granularities consulted before the dimension type",
 }
 props = {json.loads(l)["id"]: json.loads(l) for l in open("/verif/properties.jsonl")}
 os.makedirs("/tmp/seed", exist_ok=True)
